@@ -104,6 +104,7 @@ type bsCfg struct {
 	CostFn     func(int) int64
 	Probe      bool    // read every Set back through getFromShard at the end of its map phase
 	DlAdvs     []int64 // D<delta> actions: advance the clock to (deadline of key 1's entry) + delta, no tick
+	Hy         *hyCfg  // hybrid configuration: a scripted secondary store is attached (hybrid_lib_test.go)
 }
 
 type bsClient struct {
@@ -128,6 +129,7 @@ type bsWorld struct {
 	noteStep []int   // logical step of each listener call
 	noteNow  []int64 // cache clock (nanos since cache start) of each listener call
 	loads    []bsLoad
+	hy       *hyWorld // hybrid part (nil unless cfg.Hy)
 }
 
 type bsLoad struct{ K, V, Step int }
@@ -157,6 +159,9 @@ func newBsWorld(cfg *bsCfg) *bsWorld {
 			w.loads = append(w.loads, bsLoad{k, v, w.step})
 			return Loaded[int]{Value: v, Cost: cfg.LoadCost, TTL: time.Duration(cfg.LoadTTL)}, nil
 		}
+	}
+	if cfg.Hy != nil {
+		w.hyInit(&o)
 	}
 	nth := len(vrt.S.Threads)
 	w.h = newHStore(o)
@@ -188,6 +193,9 @@ func newBsWorld(cfg *bsCfg) *bsWorld {
 	}
 	if st := vrt.StepThread(w.ticker, nil); st != "blocked" {
 		w.err = "ticker did not park: " + st
+	}
+	if w.hy != nil && w.err == "" {
+		w.hyStart(nth)
 	}
 	for i := 0; i < cfg.NClients; i++ {
 		w.cl = append(w.cl, &bsClient{})
@@ -223,6 +231,9 @@ func (w *bsWorld) runOp(rec *bsRec) {
 		})
 		rec.OK = true
 	default:
+		if w.hy != nil && w.hyRunOp(rec) {
+			return
+		}
 		panic("bigstep: unknown op " + rec.Op.Kind)
 	}
 }
@@ -231,6 +242,11 @@ func (w *bsWorld) runOp(rec *bsRec) {
 func (w *bsWorld) apply(a string) bool {
 	if w.err != "" {
 		return false
+	}
+	if w.hy != nil {
+		if handled, ok := w.hyApply(a); handled {
+			return ok
+		}
 	}
 	switch a[0] {
 	case 'B':
@@ -267,11 +283,17 @@ func (w *bsWorld) apply(a string) bool {
 		w.recs = append(w.recs, rec)
 		cl.rec = rec
 		cl.used++
+		if w.hy != nil {
+			w.hyBeforeCall(rec)
+		}
 		cl.t = vrt.Spawn(fmt.Sprintf("client%d", c), func() {
 			w.runOp(rec)
 		})
 		st := vrt.StepThread(cl.t, bsAtWriteSend)
 		w.step++
+		if w.hy != nil {
+			w.hyAfterMap(rec)
+		}
 		vrt.Quiet(func() {
 			after := w.residentEntry(op.K)
 			switch op.Kind {
@@ -296,7 +318,7 @@ func (w *bsWorld) apply(a string) bool {
 				if after != nil {
 					rec.Deadline = after.expire.Load()
 				}
-			case "del":
+			case "del", "hdel":
 				if before != nil && after == nil {
 					rec.Removed, rec.Entry, rec.PrevV = true, before, before.value
 				}
@@ -392,6 +414,9 @@ func (w *bsWorld) afterDone(cl *bsClient) {
 
 // enabled lists the actions the search may take from this state (canonical order, simplest first).
 func (w *bsWorld) enabled() []string {
+	if w.hy != nil {
+		return w.hyEnabled()
+	}
 	var r []string
 	if len(w.h.s.writeChan) > 0 {
 		r = append(r, "M")
@@ -441,6 +466,9 @@ func (w *bsWorld) drain() {
 		}
 		if len(w.h.s.writeChan) > 0 {
 			w.apply("M")
+			progressed = true
+		}
+		if w.hy != nil && w.err == "" && w.hyQueued() > 0 && w.hyStepWorker(0) {
 			progressed = true
 		}
 		if !progressed {
@@ -609,6 +637,9 @@ func (w *bsWorld) canon() string {
 		}
 		fmt.Fprintf(&b, "|sk=%x,%d,%d", h.Sum64(), p.sketch.Additions, p.sketch.SampleSize)
 	}
+	if w.hy != nil {
+		w.hyCanon(x, &b)
+	}
 	// entries, in first-appearance order
 	b.WriteString("|E=")
 	for i := 0; i < len(x.order); i++ {
@@ -630,6 +661,7 @@ type bsSearch struct {
 	every   bsVisit // oracle evaluated in every state (before draining)
 	drained bsVisit // oracle evaluated after draining that state to quiescence
 	leaf    bsVisit // optional: called at states of maximal depth
+	probe   bsVisit // optional: runs after drained, NOT in quiet mode: may apply further (destructive) actions to the world, which is discarded afterwards
 }
 
 type bsNode struct {
@@ -668,6 +700,9 @@ func (b *bsSearch) exec(hist []string) (key uint64, en []string, ok bool) {
 				b.drained(w, hist)
 			}
 		})
+		if b.probe != nil {
+			b.probe(w, hist)
+		}
 	})
 	if x.ErrKind != "" {
 		b.res.Violate("engine-"+x.ErrKind, firstLine(x.Err), fmt.Sprintf("history %v: %s", hist, x.Err), len(hist), map[string]any{"cfg": b.cfg.Name, "hist": hist})
